@@ -30,6 +30,8 @@ type Rec struct {
 	Data      []byte
 	CRC       uint32 // attachments: stored crc
 	HasCRC    bool
+	DeclSize  uint64 // attachments: declared data size
+	HasSize   bool
 	// binding of a message as returned by an iterator
 	BoundChannel *Rec
 	BoundSchema  *Rec
@@ -97,6 +99,8 @@ func Diff(a, b *Rec) string {
 		return fmt.Sprintf("metadata %v vs %v", a.Meta, b.Meta)
 	case !bytes.Equal(a.Data, b.Data):
 		return fmt.Sprintf("data differs (len %d vs %d)", len(a.Data), len(b.Data))
+	case a.HasSize && b.HasSize && a.DeclSize != b.DeclSize:
+		return fmt.Sprintf("declared data size %d vs %d", a.DeclSize, b.DeclSize)
 	case a.HasCRC && b.HasCRC && a.CRC != b.CRC:
 		return fmt.Sprintf("crc %08x vs %08x", a.CRC, b.CRC)
 	}
@@ -192,6 +196,7 @@ func FromWorkload(w scen.Workload) *Content {
 			c.Messages = append(c.Messages, r)
 		case scen.OpAttachment:
 			r := &Rec{Kind: "attachment", LogTime: op.LogTime, PubTime: op.PublishTime, Name: string(op.Name), Enc: string(op.Encoding), Data: op.Data.Bytes(), Src: i}
+			r.DeclSize, r.HasSize = uint64(len(r.Data)), true
 			c.Attachments = append(c.Attachments, r)
 		case scen.OpMetadata:
 			r := &Rec{Kind: "metadata", Name: string(op.Name), Meta: SortedMeta(op.Meta), Src: i}
